@@ -118,6 +118,19 @@ pub fn run(sim: &Sim, prop: &str, tier: Tier) -> Outcome {
         }
         cfg_b.push(c);
     }
+    // the last handler of each node is always a capture-all one: it observes every packet
+    // the node receives, which also defines quiescence at the API level (a receiver may hold
+    // received packets in an internal buffer, so empty wires alone do not mean "delivered")
+    {
+        let c = HandlerCfg { capture_all: true, acks: false };
+        let i = cfg_b.len();
+        sh_b.borrow_mut().logs.push(Vec::new());
+        let h = mk_handler(sim, "B", i, &c, b, a, &sh_b);
+        if !matches!(sut(|| nb.add_packet_handler(h, true)), Ok(Ok(_))) {
+            return Outcome::Foreign("C17.unique", "add_packet_handler failed".into());
+        }
+        cfg_b.push(c);
+    }
     let n_a = if acking { 1 + sim.draw(3) as usize } else { sim.draw(2) as usize };
     for i in 0..n_a {
         let c = HandlerCfg {
@@ -127,6 +140,17 @@ pub fn run(sim: &Sim, prop: &str, tier: Tier) -> Outcome {
         sh_a.borrow_mut().logs.push(Vec::new());
         let h = mk_handler(sim, "A", i, &c, a, b, &sh_a);
         if !matches!(sut(|| na.add_packet_handler(h, c.capture_all)), Ok(Ok(_))) {
+            return Outcome::Foreign("C17.unique", "add_packet_handler failed".into());
+        }
+        cfg_a.push(c);
+    }
+
+    {
+        let c = HandlerCfg { capture_all: true, acks: false };
+        let i = cfg_a.len();
+        sh_a.borrow_mut().logs.push(Vec::new());
+        let h = mk_handler(sim, "A", i, &c, a, b, &sh_a);
+        if !matches!(sut(|| na.add_packet_handler(h, true)), Ok(Ok(_))) {
             return Outcome::Foreign("C17.unique", "add_packet_handler failed".into());
         }
         cfg_a.push(c);
@@ -330,40 +354,33 @@ pub fn run(sim: &Sim, prop: &str, tier: Tier) -> Outcome {
     ab.borrow_mut().drain = true;
     ba.borrow_mut().drain = true;
     // each round ticks both nodes once; a round with anything outstanding delivers at least one packet
-    let budget = planned.len() + planned.len() * cfg_b.len() + 4;
-    let mut quiet = 0;
-    let mut ticks = 0;
-    while quiet < 2 {
-        let before_b: usize = sh_b.borrow().logs.iter().map(|l| l.len()).sum();
-        let before_a: usize = sh_a.borrow().logs.iter().map(|l| l.len()).sum();
-        let (fa, fb) = (ab.borrow().in_flight(), ba.borrow().in_flight());
+    // (a receiver may spread a long packet over several polls: frames count too)
+    let frames_total: usize = planned.iter().map(|(_, p)| if p.data.len() <= 8 { 1 } else { (p.data.len() - 1) / 7 + 1 }).sum();
+    let budget = planned.len() + planned.len() * cfg_b.len() + frames_total + 4;
+    // quiescence: the capture-all observers have seen everything that was put on the link
+    // towards them; then two more rounds in which nothing further may show up
+    let obs_b = cfg_b.len() - 1;
+    let obs_a = cfg_a.len() - 1;
+    let mut rounds = 0;
+    let mut settled = 0;
+    while settled < 2 {
+        let want_b = sent;
+        let want_a = sh_b.borrow().acks.iter().filter(|(_, _, ok)| *ok).count();
+        let done = sh_b.borrow().logs[obs_b].len() >= want_b && sh_a.borrow().logs[obs_a].len() >= want_a;
+        if done {
+            settled += 1;
+        } else {
+            settled = 0;
+        }
         if let Some(o) = do_tick("B", &mut nb, sent) {
             return o;
         }
         if let Some(o) = do_tick("A", &mut na, sent) {
             return o;
         }
-        ticks += 2;
-        let after_b: usize = sh_b.borrow().logs.iter().map(|l| l.len()).sum();
-        let after_a: usize = sh_a.borrow().logs.iter().map(|l| l.len()).sum();
-        let moved = after_a != before_a || after_b != before_b || fa != ab.borrow().in_flight() || fb != ba.borrow().in_flight();
-        if !moved && ab.borrow().in_flight() == 0 && ba.borrow().in_flight() == 0 {
-            quiet += 1;
-        } else {
-            quiet = 0;
-        }
-        if ticks > 2 * budget {
-            return fail(
-                prop,
-                "C01.live",
-                format!(
-                    "no quiescence {} ticks after the last send although all data has arrived ({} / {} units still on the wires)",
-                    ticks,
-                    ab.borrow().in_flight(),
-                    ba.borrow().in_flight()
-                ),
-                sig("no-quiescence"),
-            );
+        rounds += 1;
+        if rounds > budget {
+            break; // the completeness check below names what is missing
         }
     }
     if let Some(o) = check(sent, true) {
